@@ -1207,6 +1207,16 @@ def replay_case(mesh, c, vols=None):
     return out
 
 
+def trailing_isolated_kernel_case(kw, nb, err):
+    """the option/mesh class of the finding 'kernel matrix rebuilt without its
+    shape': a distance kernel is requested, the vertex stored LAST (in the
+    mode's vertex order) has no neighbour within n_hop, and scipy reports the
+    shape mismatch.  Anything else that raises stays an ordinary 'raised'."""
+    if kw.get('kernel') is None or not nb or nb[-1]:
+        return False
+    return str(err).startswith('ValueError: inconsistent shapes')
+
+
 def signature(mesh, c, check):
     kw = c['kw']
     sig = {'check': check, 'options': kw_key(kw), 'etype': mesh['etype']}
@@ -1368,9 +1378,23 @@ def main(ctx):
         if 'error' in r or (rc is not None and 'error' in rc):
             err = r.get('error') or rc.get('error')
             c['_error'] = err
+            check = 'raised'
+            obs = {'error': err}
+            if trailing_isolated_kernel_case(kw, nb, err):
+                # diagnosis of one specific call site (see known_findings.d/C15.json):
+                # calculate_distance_kernel_adj rebuilds the CSR matrix from
+                # (data, indices, indptr) WITHOUT shape=, so the column count is
+                # inferred as 1 + the largest stored column; when the vertices
+                # stored last have no neighbour the kernel matrix is narrower
+                # than the adjacency and .multiply(volume_adj) raises
+                check = 'raised-kernel-trailing-isolated-vertex'
+                last = max((j for x in nb for j in x), default=-1)
+                obs['diagnosis'] = (f'kernel={kw.get("kernel")!r} and the {len(nb) - 1 - last} vertices stored last '
+                                    f'(of {len(nb)}) have no neighbour: the kernel matrix is built with '
+                                    f'{last + 1} columns')
             failures.append((c['n'], 'impl-violation', mesh, c,
-                             'matrices are returned', {'error': err},
-                             'C15_grad_const_zero (implementation raised on a well-formed mesh)', 'raised'))
+                             'matrices are returned', obs,
+                             'C15_grad_const_zero (implementation raised on a well-formed mesh)', check))
             continue
         mats = r['matrices']
         shapes_ok = r['n_matrices'] == 3 and all(A['shape'] == [c['n'], c['n']] for A in mats)
